@@ -955,3 +955,31 @@ Proof.
   intros printable split items H.
   apply (ini_value_list_display (py_repr printable) (Forall (repr_valid printable)) (repr_item_quoter printable)). exact H.
 Qed.
+
+(* ------------------------------------------------------------------ no state between parses *)
+Lemma composite_try_is_composite_parse : forall sections split f,
+  composite_try sections split pydoctor_parsers f = composite_parse sections split f.
+Proof.
+  intros sections split f. unfold pydoctor_parsers, composite_parse. cbn [composite_try run_parser].
+  destruct (fv_toml f) as [data|].
+  - destruct (toml_parse sections data); try reflexivity.
+    destruct (fv_ini f) as [secs|]; [destruct (ini_parse sections split secs)|]; reflexivity.
+  - destruct (fv_ini f) as [secs|]; [destruct (ini_parse sections split secs)|]; reflexivity.
+Qed.
+
+Lemma parse_history_is_map : forall sections split ps files,
+  parse_history sections split ps files = map (composite_try sections split ps) files.
+Proof.
+  intros sections split ps. induction files as [|f files IH]; [reflexivity|].
+  cbn [parse_history composite_step map]. rewrite IH. reflexivity.
+Qed.
+
+(* what is read from a file does not depend on which files were read before it *)
+Theorem parse_history_independent : forall sections split before f after,
+  nth (length before) (parse_history sections split pydoctor_parsers (before ++ f :: after)) PError
+  = composite_parse sections split f.
+Proof.
+  intros sections split before f after. rewrite parse_history_is_map, map_app.
+  rewrite app_nth2 by (rewrite map_length; apply le_n).
+  rewrite map_length, Nat.sub_diag. cbn [map nth]. apply composite_try_is_composite_parse.
+Qed.
